@@ -6,6 +6,11 @@
      larger by `start` cells in front and `pad` cells behind on every axis, through the region
      slice(start, ., step) on every axis - all combinations of starts x steps x pads per axis.
      Exported: the call, the expected content of the target, the block writes.
+   fam = "tile": ONE source of every shape in `shapes`, every chunking, stored TWICE into ONE target in a
+     single call (store([x, x], [t, t], regions=[r1, r2])): r1 starts at row 0, r2 is r1 moved along axis 0
+     so that the two regions are separated by a gap, adjacent, interleaved (step 2, r2 fills the holes of
+     r1) or overlapping by a whole number of periods of a periodic source (equal content on the overlap);
+     row step in `steps`.  The other axes use start 1, step 1 inside a target that is one cell larger.
    fam = "npy":  every shape in `shapes`, every chunking, every axis.
 
    Init only picks the case; the expected result is computed in one Next step. *)
@@ -26,12 +31,29 @@ ChunkChoices(pl, shape) ==
 Max1(v) == IF v < 1 THEN 1 ELSE v
 CallOf(shape, chunks, rg) ==
   [tshape |-> << [d \in DOMAIN shape |-> rg[d].start + rg[d].step * (Max1(shape[d]) - 1) + 1 + rg[d].pad] >>,
-   src    |-> << [shape |-> shape, chunks |-> chunks, tgt |-> 1, base |-> 0,
+   src    |-> << [shape |-> shape, chunks |-> chunks, tgt |-> 1, base |-> 0, per |-> Max1(Size(shape)),
                   start |-> [d \in DOMAIN shape |-> rg[d].start], step |-> [d \in DOMAIN shape |-> rg[d].step]] >>]
+
+\* the second region of a tiling: [start of r2 on axis 0, period of the source in rows (0 = not periodic)]
+TileMoves(n0, st) ==
+  { <<st * (n0 - 1) + 2, 0>>, <<st * (n0 - 1) + 1, 0>> }                  \* gap, adjacent
+  \cup (IF st = 2 THEN { <<1, 0>> } ELSE {})                               \* interleaved
+  \cup { <<st * m, m>> : m \in 1..(n0 - 1) }                              \* overlapping by n0 - m rows
+TileCall(shape, chunks, st, mv) ==
+  LET nd   == Len(shape)
+      row  == ProdSeq(Tail(shape))
+      one(a0) == [shape |-> shape, chunks |-> chunks, tgt |-> 1, base |-> 0,
+                  per |-> IF mv[2] = 0 THEN Max1(Size(shape)) ELSE mv[2] * row,
+                  start |-> [d \in 1..nd |-> IF d = 1 THEN a0 ELSE 1], step |-> [d \in 1..nd |-> IF d = 1 THEN st ELSE 1]]
+  IN [tshape |-> << [d \in 1..nd |-> IF d = 1 THEN mv[1] + st * (shape[1] - 1) + 1 ELSE shape[d] + 1] >>,
+      src    |-> << one(0), one(mv[1]) >>]
 
 Init ==
   /\ out = ""
   /\ \E pl \in Plans :
+     \/ /\ pl.fam = "tile"
+        /\ \E shape \in pl.shapes : \E chunks \in NDChunkings(shape) : \E st \in pl.steps : \E mv \in TileMoves(shape[1], st) :
+              cs = [fam |-> "tile", call |-> TileCall(shape, chunks, st, mv)]
      \/ /\ pl.fam = "geom"
         /\ \E shape \in pl.shapes : \E chunks \in ChunkChoices(pl, shape) : \E rg \in Regions(pl, Len(shape)) :
               cs = [fam |-> "geom", call |-> CallOf(shape, chunks, rg)]
@@ -40,7 +62,7 @@ Init ==
               cs = [fam |-> "npy", shape |-> shape, chunks |-> chunks, axis |-> ax]
 
 Expect ==
-  IF cs.fam = "geom"
+  IF cs.fam \in {"geom", "tile"}
   THEN [exp |-> ExpectedAll(cs.call), blocks |-> AllBlocks(cs.call)]
   ELSE [shape |-> cs.shape, axchunks |-> cs.chunks[cs.axis], cells |-> [j \in 1..Size(cs.shape) |-> j]]
 
@@ -53,6 +75,13 @@ GeomOK == cs.fam = "geom" =>
   /\ WellFormed(cs.call) /\ BlocksDisjoint(cs.call) /\ BlocksCover(cs.call)
   /\ LET ex == Expected(cs.call, 1)
      IN { ex[p] : p \in DOMAIN ex } \ {0} = 1..Size(cs.call.src[1].shape)
+\* a tiling: both stores are well-formed together, every cell is covered by as many block writes as elements
+\* go to it, and the target ends up holding the source twice (equal elements where the regions overlap)
+TileOK == cs.fam = "tile" =>
+  /\ WellFormed(cs.call) /\ BlocksDisjoint(cs.call) /\ BlocksCover(cs.call)
+  /\ \A q \in 1..2 : LET sr == cs.call.src[q]
+                          gs == Idx0(sr.shape)
+                      IN \A j \in DOMAIN gs : Expected(cs.call, 1)[TPos(cs.call, sr, gs[j])] = SVal(cs.call, q, gs[j])
 \* the contract accepts the array itself cut like the input, and rejects a changed axis chunking
 NpyOK == cs.fam = "npy" =>
   LET ident == [shape |-> cs.shape, chunks |-> cs.chunks, lchunks |-> cs.chunks, cells |-> [j \in 1..Size(cs.shape) |-> j]]
